@@ -97,7 +97,7 @@ def run(ctx):
         open(gpath, "wb").write(data)
         args += ["--replay", gpath]
     else:
-        args += ["--n", ctx.vol(2500, 40000)]
+        args += ["--n", ctx.vol(1800, 40000)]
     rc, out, err = ctx.run_harness(panic, args, timeout=7200)
     if rc != 0:
         ctx.fatal("harness panic failed: " + err[-500:])
